@@ -35,7 +35,7 @@ ASSUMPTIONS = [
 
 ALLOPS = ["AddHeading", "SetStyle", "AddStyle", "ModifyStyle", "RemoveStyle", "GenerateTOC", "AutoGenerateTOC", "UpdateTOC",
           "TOCEntry", "ApplyTableStyle", "CreateCustomTableStyle", "AddListItem", "AddNote", "RemoveNote", "Save", "SaveFile",
-          "Reopen", "OpenForeign", "Markdown", "AddParagraph", "AddHeader", "AddFooter", "AddTable"]
+          "Reopen", "OpenForeign", "Markdown", "RenderTemplate", "AddParagraph", "AddHeader", "AddFooter", "AddTable"]
 
 # argument classes
 SMALL = dict(Lv={2, 9}, Maxes={3}, StyIds={"Quote", "C1", "Zz9"}, AddIds={"C1"}, ModIds={"Heading2", "C1"}, RmIds={"Heading2", "C1"},
@@ -63,7 +63,7 @@ def gencfg(ctx, name, ops, args, depth):
 # focused alphabets explored exhaustively deeper than the whole alphabet:
 # (name, ops, argument classes, quick depth (0 = thorough only), thorough depth)
 GROUPS = [
-    ("styles", ["AddStyle", "ModifyStyle", "RemoveStyle", "SetStyle", "AddHeading", "Save", "SaveFile", "Reopen", "OpenForeign"],
+    ("styles", ["AddStyle", "ModifyStyle", "RemoveStyle", "SetStyle", "AddHeading", "Save", "SaveFile", "Reopen", "OpenForeign", "RenderTemplate"],
      dict(SMALL, Lv={2}, StyIds={"C1"}, ModIds={"C1", "Heading2"}, RmIds={"C1"}, Shapes={"plain"}, HowsC={"replace"}, FreshC={False}), 3, 4),
     ("toc", ["AddHeading", "GenerateTOC", "AutoGenerateTOC", "UpdateTOC", "TOCEntry", "RemoveStyle", "Reopen", "OpenForeign", "Markdown"],
      dict(SMALL, Lv={2}, Maxes={3}, RmIds={"14"}, Shapes={"toc"}, Kinds={"heads"}, FreshC={False}), 3, 4),
@@ -77,7 +77,7 @@ GROUPS = [
 
 
 def judge(ctx, cases, tag):
-    obs = ctx.run_exec("defs", cases, tag, env={"GOGC": "400"})
+    obs = ctx.run_exec("defs", cases, tag, env={"GOGC": "200"})
     res = ctx.tlc_trace("Defs_Trace.tla", "Defs_Trace.cfg", obs, tag)
     dev = ctx.extra_cov.setdefault("model_deviations", [])
     for w in res:
